@@ -36,6 +36,7 @@ class Contract:
         self.types: Dict[str, str] = kw.pop("types", {})  # local/param name -> annotation string
         self.attr_types: Dict[str, str] = kw.pop("attr_types", {})  # 'Class.attr' -> annotation string
         self.self_class: Optional[str] = kw.pop("self_class", None)
+        self.emits_after = kw.pop("emits_after", [])  # like emits, but arguments are evaluated after the call (may mention result)
         self.emits = kw.pop("emits", [])  # events appended when called by contract: list of (kind, [arg exprs], cond)
         self.verify = kw.pop("verify", True)  # False = assumed contract (trusted), listed in evidence
         self.note = kw.pop("note", "")
@@ -90,6 +91,7 @@ class Registry:
         self.lemmas: list = []
         self.ufuns: Dict[str, tuple] = {}
         self.writer_rules: list = []
+        self.native: list = []
         self.dispatch: Dict[str, Contract] = {}
 
     def dispatch_contract(self, key, **kw):
@@ -97,6 +99,10 @@ class Registry:
         kw["verify"] = False
         self.dispatch[key] = Contract(key, **kw)
         return self.dispatch[key]
+
+    def native_bounded(self, prop, name, script, bound, what):
+        """Bounded stand-in executed natively on the real functions (exhaustive small scope); never counted as proved."""
+        self.native.append({"prop": prop, "name": name, "script": script, "bound": bound, "what": what})
 
     def writers(self, prop, attr, allowed, why=""):
         """Whole-tree syntactic obligation: attribute `attr` is stored to only inside the listed functions."""
@@ -135,6 +141,7 @@ inline = REG.inline_fn
 invariant = REG.invariant
 ufun = REG.ufun
 writers = REG.writers
+native_bounded = REG.native_bounded
 dispatch_contract = REG.dispatch_contract
 
 
